@@ -43,7 +43,7 @@ def canon_trace(sb, lines, candidates):
     hmap = {}
     for p in candidates:
         hmap[hashlib.sha256(p.encode()).hexdigest()[:16]] = p
-    start = next((i for i, (_, k, p) in enumerate(lines) if p.startswith(snaps) or p.startswith(sb.home)), None)
+    start = next((i for i, (_, k, p) in enumerate(lines) if p.startswith(snaps) or p.startswith(sb.home) or p.startswith(sb.project)), None)
     if start is None:
         return None, []
     out = []
@@ -57,10 +57,10 @@ def canon_trace(sb, lines, candidates):
             elif len(rest) == 3: out.append((kc, 4 if rest[1] == 'backup' else 5, rest[2]))
             elif len(rest) == 4:
                 orig = hmap.get(rest[3], '?' + rest[3])
-                orig = orig[len(sb.home):] if orig.startswith(sb.home) else orig
+                orig = orig[len(sb.root):] if orig.startswith(sb.root) else orig
                 out.append((kc, 8 if rest[1] == 'backup' else 6, orig))
             else: out.append((kc, 99, p))
-        elif p.startswith(sb.home): out.append((kc, 0, p[len(sb.home):]))
+        elif p.startswith(sb.home) or p.startswith(sb.project): out.append((kc, 0, p[len(sb.root):]))
         else: out.append((kc, 98, p))
     return start, out
 
@@ -124,7 +124,7 @@ def run_scenario(ctx, idx, kinds, max_points, cases):
         while not cw.desired(None):
             cw = ds.CfgWorld(sb, rng)
         cw.write()
-        base = sb.home
+        base = sb.root
         sb.cli_json(['deploy', '--apply', '--yes', '--adopt'])
         tags = []
         for _ in range(rng.randrange(1, 4)):
@@ -135,14 +135,14 @@ def run_scenario(ctx, idx, kinds, max_points, cases):
             if not t.startswith('manifest:'): tags.append('user:' + t)
         flt = None
         saved = save_world(sb)
-        before = ds.read_tree(base)
+        before = ds.world_tree(sb)
         since = set(os.listdir(os.path.join(sb.aphome, 'state', 'snapshots'))) if os.path.isdir(os.path.join(sb.aphome, 'state', 'snapshots')) else set()
         recs_before = snapshot_records(sb)
         D = ds.relD(cw.desired(flt), base); R = ds.relR(cw.roots(flt), base)
         D.sort(key=lambda d: (d['target'], d['path'].split('/')))    # DesiredState is a BTreeMap<(target, PathBuf)>: component-wise order
         ids = ds.Ids()
         lm = ds.latest_managed_of(sb, base)
-        tr = os.path.join(sb.root, 'trace.txt')
+        tr = os.path.join(sb.canary, 'trace.txt')
         rc, doc, out, err = sb.cli_json(['deploy', '--apply', '--yes', '--adopt'], extra_env={'AGENTPACK_VERIF_TRACE': tr})
         lines = read_trace(tr)
         rec = {'stream': 'crash', 'scenario': idx, 'tags': tags,
@@ -152,7 +152,7 @@ def run_scenario(ctx, idx, kinds, max_points, cases):
             ctx.notes.append('scenario %d: reference deploy failed (%s); skipped' % (idx, out[:120])); return
         if not doc['data'].get('applied'):
             ctx.count('crash', key=('noop',), nontrivial=False, tags=['noop']); return
-        final = ds.read_tree(base)
+        final = ds.world_tree(sb)
         plan = doc['data']['changes']
         cands = [base + d['path'] for d in D] + [c['path'] for c in plan] + [base + r['root'] + '/' + ds.mf_name(r['target']) for r in R]
         offset, ctrace = canon_trace(sb, lines, cands)
@@ -172,7 +172,7 @@ def run_scenario(ctx, idx, kinds, max_points, cases):
                 restore_world(sb, saved)
                 k = offset + j + 1
                 p = sb.cli(['deploy', '--apply', '--yes', '--adopt', '--json'], extra_env={'AGENTPACK_VERIF_FAULT': '%d:%s' % (k, kind)})
-                after = ds.read_tree(base)
+                after = ds.world_tree(sb)
                 so = p.stdout.decode('utf-8', 'replace')
                 r2 = dict(rec, fault_point=j, fault_kind=kind, trace_line=ctrace[j], rc=p.returncode, stdout=so[:600])
                 ctx.count('crash', key=(kind, ctrace[j][0], ctrace[j][1]), nontrivial=True, tags=['fault:' + kind, 'at:%d/%d' % (ctrace[j][0], ctrace[j][1])])
@@ -217,7 +217,7 @@ def run_scenario(ctx, idx, kinds, max_points, cases):
                     prefixes.append((j, after))
                 # re-run reaches the uninterrupted final state
                 rc3, doc3, out3, err3 = sb.cli_json(['deploy', '--apply', '--yes', '--adopt'])
-                again = ds.read_tree(base)
+                again = ds.world_tree(sb)
                 same, diffp = same_final(again, final, ids)
                 if not (doc3 and doc3.get('ok')) or not same:
                     only_manifests = bool(doc3 and doc3.get('ok')) and all(ds.is_manifest_name(os.path.basename(q)) for q in diffp)
@@ -251,7 +251,7 @@ def rollback_faults(ctx, nscen, kinds):
             cw = ds.CfgWorld(sb, rng)
             while not cw.desired(None):
                 cw = ds.CfgWorld(sb, rng)
-            cw.write(); base = sb.home
+            cw.write(); base = sb.root
             rc, d1, _, _ = sb.cli_json(['deploy', '--apply', '--yes', '--adopt'])
             for _ in range(3): cw.edit_config()
             cw.write()
@@ -259,17 +259,17 @@ def rollback_faults(ctx, nscen, kinds):
             if not (d1 and d1.get('ok') and d1['data'].get('applied') and d2 and d2.get('ok') and d2['data'].get('applied')):
                 continue
             S = d1['data']['snapshot_id']
-            saved = save_world(sb); before = ds.read_tree(base)
-            tr = os.path.join(sb.root, 'trace.txt')
+            saved = save_world(sb); before = ds.world_tree(sb)
+            tr = os.path.join(sb.canary, 'trace.txt')
             rc, doc, out, err = sb.cli_json(['rollback', '--to', S, '--yes'], extra_env={'AGENTPACK_VERIF_TRACE': tr})
-            lines = read_trace(tr); final = ds.read_tree(base)
+            lines = read_trace(tr); final = ds.world_tree(sb)
             if not (doc and doc.get('ok')): continue
             ids = ds.Ids()
             for j in range(len(lines)):
                 for kind in kinds:
                     restore_world(sb, saved)
                     p = sb.cli(['rollback', '--to', S, '--yes', '--json'], extra_env={'AGENTPACK_VERIF_FAULT': '%d:%s' % (j + 1, kind)})
-                    after = visible(ds.read_tree(base))
+                    after = visible(ds.world_tree(sb))
                     r2 = {'stream': 'rollback_fault', 'scenario': idx, 'fault_point': j, 'fault_kind': kind, 'line': lines[j][1:], 'rc': p.returncode,
                           'stdout': p.stdout.decode('utf-8', 'replace')[:400]}
                     ctx.count('rollback_fault', key=(kind, lines[j][1]), tags=['fault:' + kind, 'op:' + lines[j][1]])
@@ -283,7 +283,7 @@ def rollback_faults(ctx, nscen, kinds):
                         if after.get(q) not in (before.get(q), final.get(q)):
                             ctx.violation('after %s at rollback point %d file %s holds neither its previous nor its new content' % (kind, j, q), r2)
                     rc3, doc3, out3, _ = sb.cli_json(['rollback', '--to', S, '--yes'])
-                    again = ds.read_tree(base)
+                    again = ds.world_tree(sb)
                     same, diffp = same_final(again, final, ids)
                     if not (doc3 and doc3.get('ok')) or not same:
                         ctx.violation('re-running rollback after %s at point %d does not reach the uninterrupted result (%s)' % (kind, j, diffp[:3] or out3[:100]), r2)
